@@ -178,6 +178,17 @@ fn mode_c17(ctx: &mut Ctx, args: &Args, rng: &Rng, shard: (u64, u64)) {
         for _ in 0..64 {
             fr.push(rng.next() & fm);
         }
+        // every single fraction bit, every run of ones from the bottom and from the top, every pair of bits, and the
+        // complements: a slip that needs one particular fraction pattern together with a particular exponent
+        for i in 0..52u32 {
+            fr.push(1 << i);
+            fr.push(fm ^ (1 << i));
+            fr.push((1u64 << i) - 1);
+            fr.push(fm ^ ((1u64 << i) - 1));
+            for j in 0..i {
+                fr.push(1 << i | 1 << j);
+            }
+        }
         for f in fr {
             for s in [0u64, 1] {
                 float_one(ctx, F64, s << 63 | e << 52 | f);
